@@ -16,7 +16,7 @@ PROFILES = ["mixed", "cascade", "weights", "elementwise", "cpu", "cascade_chain"
 
 def sample_config(rng, profile):
     """CLI options for one compilation: accelerator x memory mode x optimise x allocator x alignment x arena cache."""
-    acc = rng.choice(ACCS if profile not in ("cascade", "cascade_chain") else ["ethos-u55-32", "ethos-u55-64", "ethos-u55-128", "ethos-u55-128", "ethos-u55-256", "ethos-u65-256"])
+    acc = rng.choice(ACCS if profile not in ("cascade", "cascade_chain", "cascade_lut") else ["ethos-u55-32", "ethos-u55-64", "ethos-u55-128", "ethos-u55-128", "ethos-u55-256", "ethos-u65-256"])
     opts = ["--accelerator-config", acc]
     ini = os.path.join(common.REPO, "ethosu", "config_files", "Arm", "vela.ini")
     mode = rng.choice(["default", "default", "Sram_Only", "Shared_Sram", "Dedicated_Sram"])
@@ -30,7 +30,7 @@ def sample_config(rng, profile):
         if sysc == "Ethos_U55_Deep_Embedded" or sysc == "Ethos_U65_Embedded":
             mode = rng.choice(["Sram_Only", "Shared_Sram"])
         opts += ["--config", ini, "--system-config", sysc, "--memory-mode", mode]
-    opt = rng.choice(["Size", "Performance"]) if profile not in ("cascade", "cascade_chain") else rng.choice(["Size", "Size", "Performance"])
+    opt = rng.choice(["Size", "Performance"]) if profile not in ("cascade", "cascade_chain", "cascade_lut") else rng.choice(["Size", "Size", "Performance"])
     opts += ["--optimise", opt]
     opts += ["--tensor-allocator", rng.choice(["HillClimb", "HillClimb", "Greedy", "LinearAlloc"])]
     if rng.random() < 0.4:
@@ -64,6 +64,32 @@ def make_net(rng, idx, profile):
 
     if profile == "cascade_chain":
         return netgen.cascade_net(rng, idx)
+    if profile == "cascade_lut":
+        # cascades whose stripes interleave table-lookup activations with operations that have no table
+        # (on the 16-bank configurations those destroy the table window in SHRAM between two stripes)
+        # narrow -> wide -> narrow, so that keeping the wide intermediate maps whole is what `--optimise Size` avoids
+        bb = netgen.B(rng, f"casclut{idx}", rng.choice(["int8", "int8", "uint8", "int16"]))
+        h, w = rng.choice([33, 37, 48, 64]), rng.choice([32, 64])
+        c0, mid = rng.choice([4, 8]), rng.choice([24, 32, 48])
+        x = bb.input([1, h, w, c0])
+        kinds = [rng.choice(["lut", "lut", "dw", "pool", "conv", "lut"]) for _ in range(rng.randint(1, 3))]
+        if "lut" not in kinds:
+            kinds.insert(rng.randint(0, len(kinds)), "lut")
+        bb.net.desc.append(f"cascade_lut in={[1, h, w, c0]} mid={mid} kinds={kinds}")
+        cur = bb.conv(x, mid, (3, 3), (1, 1), (1, 1), "SAME", act=rng.choice([0, 1]))
+        for kd in kinds:
+            k = rng.choice([1, 3, 3])
+            if kd == "lut":
+                new = bb.unary(rng.choice(["TANH", "LOGISTIC", "LEAKY_RELU", "TANH"]), cur)
+            elif kd == "dw":
+                new = bb.dwconv(cur, (k, k), (1, 1), (1, 1), "SAME")
+            elif kd == "pool":
+                new = bb.pool(cur, rng.choice(["MAX_POOL_2D", "AVERAGE_POOL_2D"]), (2, 2), (1, 1), "SAME")
+            else:
+                new = bb.conv(cur, mid, (k, k), (1, 1), (1, 1), "SAME")
+            cur = new if new is not None else cur
+        cur = bb.conv(cur, c0, (3, 3), (1, 1), (1, 1), "SAME") or cur
+        return bb.finish([cur])
     if profile == "pattern":
         return netgen.pattern_net(rng, idx)
     if profile.startswith("pattern:"):
